@@ -193,6 +193,8 @@ pub struct Drv {
     /// arguments of recent calls by method name (near-repeat lane: the same request again, or the same
     /// request with exactly one operand changed / one optional operand toggled)
     pub recent_calls: Vec<(&'static str, Option<u32>, Vec<crate::producer::Group>)>,
+    /// module-scope values whose type is a declared 64-bit type (switch selectors with two-word case literals)
+    pub typed64: Vec<u32>,
 }
 
 impl Drv {
@@ -213,6 +215,7 @@ impl Drv {
             type_ids: vec![],
             constants: vec![],
             recent_calls: vec![],
+            typed64: vec![],
         };
         // a few ids nothing defines: used as switch selectors and as "unknown" result types
         for _ in 0..3 {
@@ -425,6 +428,7 @@ impl Drv {
                     self.struct_ids.clear();
                     self.type_ids.clear();
                     self.constants.clear();
+                    self.typed64.clear();
                     Ret::Unit
                 })
             }
@@ -432,9 +436,31 @@ impl Drv {
                 rep.kind = CallKind::SetVersion; // judged like a call that must not touch the selection
                 rep.what = format!("scale lane {} with n={}", kind, n);
                 let n = *n as usize;
-                let b = &mut self.b;
                 let ids: Vec<u32> = self.defined.iter().chain(self.untyped.iter()).cloned().collect();
                 let kind = *kind;
+                if kind == 2 {
+                    // the 64-bit constant declared at the end of the lane becomes a possible switch selector
+                    let b = &mut self.b;
+                    let r = guarded(|| {
+                        let t32 = b.type_int_id(None, 32, 0);
+                        for _ in 0..n {
+                            b.undef(t32, None);
+                        }
+                        let t = b.type_float_id(None, 64, None);
+                        b.constant_bit64(t, 0x0123_4567_89AB_CDEF)
+                    });
+                    match r {
+                        Ok(id) => {
+                            self.typed64.push(id);
+                            rep.ret = Ret::Unit;
+                        }
+                        Err(pi) => rep.panic = Some(pi),
+                    }
+                    rep.post_sel = self.sel();
+                    rep.post = self.model();
+                    return rep;
+                }
+                let b = &mut self.b;
                 guarded(move || {
                     match kind {
                         0 => {
@@ -525,6 +551,17 @@ impl Drv {
                         }
                         self.bias_arguments(bind.name, *arg_seed, &mut want, &mut groups);
                         self.near_repeat(bind.name, *arg_seed, &mut want, &mut groups);
+                        if (bind.name == "switch" || bind.name == "insert_switch") && !self.typed64.is_empty() && arg_seed % 3 == 0 && groups.len() == 3 {
+                            // selector of a declared 64-bit type: every case literal takes two words
+                            let sel = self.typed64[(arg_seed / 3) as usize % self.typed64.len()];
+                            groups[0].items = vec![vec![MOp::W(s.k_idref, sel)]];
+                            for it in groups[2].items.iter_mut() {
+                                if let Some(MOp::W(_, v)) = it.first().cloned() {
+                                    it[0] = MOp::L64(((v as u64) << 32) | (v as u64 ^ 0x5555_5555));
+                                }
+                            }
+                            want.ops = groups.iter().flat_map(|g| g.items.iter().flatten().cloned()).collect();
+                        }
                         let has_rid = s.inst(bind.opcode).map(|gi| gi.operands.iter().any(|(k, _)| s.cat(*k) == crate::snapshot::Cat::IdResult)).unwrap_or(false);
                         let rid_explicit = if bind.has_result_id_param && *explicit_rid { Some(self.fresh_untracked()) } else { None };
                         want.rid = if has_rid { rid_explicit } else { None };
@@ -588,6 +625,9 @@ impl Drv {
                     if let (Some(t), Some(MOp::W(_, v))) = (inst.rtype, inst.ops.first()) {
                         self.constants.push((rid, t, *v));
                     }
+                }
+                if (inst.is("Constant") || inst.is("SpecConstant")) && inst.rtype.map(|t| self.two_word_types.contains(&t)).unwrap_or(false) {
+                    self.typed64.push(rid);
                 }
             }
             if let Some(rid) = inst.rid {
